@@ -7,7 +7,7 @@ VERIF = Path(__file__).resolve().parent.parent
 TEXT = {
  "C17": dict(
     technique="TLA+ definition (Bounds.tla) model-checked by TLC; TLC-generated exhaustive case table replayed on apply_bounds",
-    text="TLC enumerates every lattice case (3 methods x boxes x inputs incl. faces, one-ulp offsets, exact multiples of the range) of Bounds.tla, checks the property's laws on the definition, and the complete table is replayed on the real apply_bounds under 9 float concretisations incl. (-0.1,0.2), 1e-9 and 1e9 ranges; every case additionally as a single vector and, where integer-valued, as int64 / float32 arrays. Exhaustive for the bounded lattice; floats enter through the stated ulp tolerances.",
+    text="TLC enumerates every lattice case (3 methods x boxes x inputs incl. faces, one-ulp offsets, exact multiples of the range) of Bounds.tla, checks the property's laws on the definition, and the complete table is replayed on the real apply_bounds under 9 float concretisations incl. (-0.1,0.2), 1e-9 and 1e9 ranges; every case additionally as a single vector, where integer-valued as int64 / float32 arrays, as Fortran-ordered / transposed / strided / read-only populations, and (toroidal) through GaussianMutation with forced noise. Exhaustive for the bounded lattice; floats enter through the stated ulp tolerances.",
     note="Trusted: TLC, the harness' concretisation/ulp comparison, numpy. Not covered: inputs that are not an affine image of a lattice point within Span ranges of the box.",
     design_ref="4/C17"),
 }
@@ -31,9 +31,9 @@ TEXT.update({
     note="Trusted: TLC, recorder. The specification's contribution is equality of behaviours; the quantifier is carried by the corpus (see evidence).",
     design_ref="4/C14"),
  "C15": dict(
-    technique="TLA+ definition of nearest-better clustering (NBC.tla) checked by TLC; exhaustive lattice tables replayed on NearestBetterClustering with metamorphic images",
+    technique="TLA+ definition of nearest-better clustering (NBC.tla) checked by TLC; exhaustive lattice tables replayed on NearestBetterClustering with metamorphic images; NBCBatch.tla evaluated by TLC as the exact oracle for generated populations of 8-60 individuals",
     text="NBC.tla is the definition in integers (ties, truncation as a relation, strictly-better attachment, threshold test exact); TLC checks best-is-seed, scale/translate/mirror invariance and factor monotonicity on every bounded population and writes every case with its acceptable results; the replay runs the real class on each case under several embeddings (dimension, axis, exact scales incl. spacing 2^-30 around 1.0 and 2^20), permuted input orders and both directions, comparing seeds and distances.",
-    note="Trusted: TLC, exact power-of-two concretisation. Population size is bounded (quick 4, thorough 5; 2-D grid 3-4 points).",
+    note="Trusted: TLC, exact power-of-two concretisation. Exhaustive part: population size bounded (quick 4, thorough 5; 2-D grid 3-4 points). Larger populations (8-60, on a line embedded along Pythagorean directions so that every distance is exact) are generated, not enumerated; their expected seeds come from TLC evaluating NBCBatch.tla.",
     design_ref="4/C15"),
  "C16": dict(
     technique="TLA+ state machine of wrapper stacks (Problem.tla) model-checked by TLC; every (stack, call sequence) of the model replayed on real wrapper objects",
